@@ -210,6 +210,7 @@ type liaTr struct {
 	nfresh  int
 	nvars   int
 	prodVar map[int]string
+	basePr  map[[2]int]string
 	ufDecl  map[string]bool
 	pre     map[int][]liaField // natural field split of AddC/SubB results
 	nonlin  bool
@@ -375,6 +376,82 @@ func (l *liaTr) bitsOf(x *Term, lo, hi int) string {
 		return sum[0]
 	}
 	return "(+ " + strings.Join(sum, " ") + ")"
+}
+
+// prodExpr returns an Int expression equal to the mathematical product of the unsigned values of a
+// and b.  Operands of the shape "low word of a carry-chain addition" are expanded by distributivity
+// ((x+y+c-2^w*cy)*b = x*b+y*b+c*b-2^w*cy*b), 1-bit operands become ite, constants stay linear; what
+// remains is one bounded variable per unordered pair of base operands, so that a squaring routine
+// that multiplies by 2*x_i (mod 2^64) is related to the products x_i*x_j of its specification.
+func (l *liaTr) prodExpr(a, b *Term, depth int) string {
+	for a.Op == OZExt {
+		a = a.Args[0]
+	}
+	for b.Op == OZExt {
+		b = b.Args[0]
+	}
+	if a.IsConst() {
+		if a.K.Sign() == 0 {
+			return "0"
+		}
+		return fmt.Sprintf("(* %s %s)", a.K.String(), l.I(b))
+	}
+	if b.IsConst() {
+		return l.prodExpr(b, a, depth)
+	}
+	if l.ub(a).Cmp(bigOne) <= 0 {
+		return fmt.Sprintf("(ite (= %s 1) %s 0)", l.I(a), l.I(b))
+	}
+	if l.ub(b).Cmp(bigOne) <= 0 {
+		return fmt.Sprintf("(ite (= %s 1) %s 0)", l.I(b), l.I(a))
+	}
+	if depth < 6 {
+		for pass := 0; pass < 2; pass++ {
+			if a.Op == OExtract && a.P1 == 0 && a.Args[0].Op == OAddC && a.P0+1 == int(a.Args[0].S)-1 {
+				ac := a.Args[0]
+				l.I(ac)
+				parts := []string{l.prodExpr(ac.Args[0], b, depth+1), l.prodExpr(ac.Args[1], b, depth+1), l.prodExpr(ac.Args[2], b, depth+1)}
+				e := "(+ " + strings.Join(parts, " ") + ")"
+				if pre, ok := l.pre[ac.ID]; ok && len(pre) == 2 {
+					cy := pre[1].name
+					xw := pre[1].lo
+					cmax := new(big.Int).Add(l.ub(ac.Args[0]), l.ub(ac.Args[1]))
+					cmax.Add(cmax, l.ub(ac.Args[2]))
+					cmax.Rsh(cmax, uint(xw))
+					ib := l.I(b)
+					var cyb string
+					switch {
+					case cmax.Cmp(bigOne) <= 0:
+						cyb = fmt.Sprintf("(ite (= %s 1) %s 0)", cy, ib)
+					case cmax.Cmp(big.NewInt(2)) <= 0:
+						cyb = fmt.Sprintf("(ite (= %s 0) 0 (ite (= %s 1) %s (* 2 %s)))", cy, cy, ib, ib)
+					default:
+						l.fail("carry of AddC above 2 in product distribution")
+					}
+					e = fmt.Sprintf("(- %s (* %s %s))", e, pow2(xw).String(), cyb)
+				}
+				n := l.fresh("pd", new(big.Int).Mul(l.ub(a), l.ub(b)))
+				fmt.Fprintf(&l.sb, "(assert (= %s %s))\n", n, e)
+				return n
+			}
+			a, b = b, a
+		}
+	}
+	l.I(a)
+	l.I(b)
+	k := [2]int{a.ID, b.ID}
+	if k[0] > k[1] {
+		k[0], k[1] = k[1], k[0]
+	}
+	if l.basePr == nil {
+		l.basePr = map[[2]int]string{}
+	}
+	if v, ok := l.basePr[k]; ok {
+		return v
+	}
+	pv := l.fresh("M", new(big.Int).Mul(l.ub(a), l.ub(b)))
+	l.basePr[k] = pv
+	return pv
 }
 
 func (l *liaTr) wrapped(t *Term, exact string, ubExact *big.Int, mayNeg bool, negBound *big.Int) string {
@@ -605,12 +682,10 @@ func (l *liaTr) i(t *Term) string {
 		if y.IsConst() {
 			return l.canon(t)
 		} else {
-			// symbolic product: one bounded variable per product node
-			l.I(x)
-			l.I(y)
-			pv := l.fresh("M", ubp)
-			l.prodVar[t.ID] = pv
-			e = pv
+			// symbolic product: distributed over carry-chain sums, bits and constants down to one
+			// bounded variable per pair of base operands
+			e = l.prodExpr(x, y, 0)
+			l.prodVar[t.ID] = e
 		}
 		return l.wrapped(t, e, ubp, false, nil)
 	case OAnd:
